@@ -11,6 +11,7 @@ import (
 	ledger "github.com/formancehq/ledger/internal"
 	"github.com/formancehq/ledger/internal/storage/common"
 	"github.com/formancehq/ledger/verifh/lx"
+	"github.com/formancehq/ledger/verifh/pimport"
 	"github.com/formancehq/ledger/verifh/reg"
 	"github.com/formancehq/ledger/verifh/sched"
 	"github.com/formancehq/ledger/verifh/world"
@@ -384,6 +385,7 @@ func init() {
 
 	registerConc(concCheck{
 		id: "C09", boundQ: 2, boundT: -1, quick: 100 * time.Second, thorough: 12 * time.Minute, minOutcomes: 2,
+		sequential: pimport.RenumberedImports("C09"),
 		scenarios: mkScenarios(one, hashChainOracle,
 			scenarioDef{name: "two-posts-disjoint-accounts", prefix: []lx.Op{seed}, threads: [][]lx.Op{
 				{post("w>a", p("world", "a", "USD", "1"))}, {post("w>b", p("world", "b", "USD", "1"))}}},
@@ -416,6 +418,7 @@ func init() {
 
 	registerConc(concCheck{
 		id: "C16", boundQ: 2, boundT: -1, quick: 100 * time.Second, thorough: 12 * time.Minute, minOutcomes: 2,
+		sequential: pimport.RenumberedImports("C16"),
 		scenarios: mkScenarios(one, idOrderOracle,
 			scenarioDef{name: "two-creates-sharing-world", prefix: []lx.Op{seed}, threads: [][]lx.Op{
 				{post("w>a", p("world", "a", "USD", "1"))}, {post("w>b", p("world", "b", "USD", "1"))}}},
